@@ -30,7 +30,7 @@ import subprocess
 import time
 
 from common import LEAN, VERIF, run_driver
-from framework import lean_obligations, scn_hash
+from framework import lean_obligations, scn_hash, safe_probe
 from sched_common import Scenario, enum_lines, model_outcome_matches
 from sched_explore import (Acc, devs_parse, devs_str, explore, explore_parallel, make_pool,
                            sample_parallel)
@@ -306,11 +306,11 @@ def probe_release_window(seed, cases=12):
 def run(ctx):
     lean_obligations(ctx)
     from props.c03 import probe_burst
-    pb = probe_burst(f"{ctx.seed}:c06", 4 if ctx.tier == "quick" else 30)
+    pb = safe_probe(probe_burst, f"{ctx.seed}:c06", 4 if ctx.tier == "quick" else 30)
     ctx.coverage["burst_cases"] = 4 if ctx.tier == "quick" else 30
     if pb:
         ctx.violation(ctx.write_replay("burst.txt", "\n".join(pb) + "\n"), pb[0][:160])
-    pr = probe_release_window(ctx.seed, 15 if ctx.tier == "quick" else 200)
+    pr = safe_probe(probe_release_window, ctx.seed, 15 if ctx.tier == "quick" else 200)
     ctx.coverage["release_window_cases"] = 15 if ctx.tier == "quick" else 200
     if pr:
         ctx.violation(ctx.write_replay("release_window.txt", "\n".join(pr[:10]) + "\n"), pr[0][:200])
@@ -321,11 +321,11 @@ def run(ctx):
     # callbacks of two events never overlap, an abandoned transition does not go on in the background — is checked
     # on the implementation directly)
     from props.c03 import probe_cancelled_sender
-    pc = probe_cancelled_sender(f"{ctx.seed}:c06", cases=40)
+    pc = safe_probe(probe_cancelled_sender, f"{ctx.seed}:c06", cases=40)
     ctx.coverage["cancelled_sender_cases"] = 40
     if pc:
         ctx.violation(ctx.write_replay("cancelled_sender.txt", "\n".join(pc[:12]) + "\n"), pc[0])
-    ncases, pf = probe_detached_sends()
+    ncases, pf = safe_probe(probe_detached_sends, pair=True)
     ctx.coverage["detached_send_cases"] = ncases
     if pf:
         ctx.violation(ctx.write_replay("detached_sends.txt", "\n".join(pf[:12]) + "\n"), pf[0])
